@@ -248,6 +248,8 @@ def directed_case(rng, kind, analysis=None, floating=True):
     """a small circuit in which a component of the given kind certainly appears, with all of its
     terminals on non-ground nodes when `floating` (so that no stamp entry is hidden by the ground
     row/column), optional arguments present, either orientation"""
+    if kind in ('Kic1', 'Kic2', 'Kfirst', 'Cic', 'Lic'):
+        analysis = 'ivp'          # decided before the skeleton is drawn, so that its sources are written for this kind
     analysis = analysis or rng.choice(['dc', 's', 'ivp', 'ac'])
     g = Gen(rng, analysis, 5, 0, ['R', 'V', 'I', 'C', 'L'], symbolic_prob=0.15)
     g.omega = Fraction(rng.randint(1, 9), rng.randint(1, 3))
@@ -277,6 +279,18 @@ def directed_case(rng, kind, analysis=None, floating=True):
         nm = g.name('E')
         l = '%s %s %s opamp %s %s %s %s%s' % (nm, perm[0], perm[1], perm[2], perm[3], fs(sv_), fs(sv(rng)),
                                                (' ' + fs(rv_)) if kind == 'EopampRo' else '')
+        g.lines.append((l, l))
+    elif kind == 'Efdopamp':
+        # `Ename Np Nm fdopamp Nip Nim Nocm Ad Ac`; the output common-mode node is held by a source
+        g.element('V', ['5', '0'])
+        nm = g.name('E')
+        l = '%s %s %s fdopamp %s %s 5 %s %s' % (nm, perm[0], perm[1], perm[2], perm[3], fs(sv_), fs(sv(rng)))
+        g.lines.append((l, l))
+    elif kind == 'Einamp':
+        # `Ename Np Nm inamp Nip Nim Nrp Nrm Ad Ac Rf` with the external gain resistor between Nrp and Nrm
+        g.element('R', ['6', '7'])
+        nm = g.name('E')
+        l = '%s %s %s inamp %s %s 6 7 %s %s %s' % (nm, perm[0], perm[1], perm[2], perm[3], fs(sv_), fs(sv(rng)), fs(rv_))
         g.lines.append((l, l))
     elif kind == 'G':
         g.add('G', perm, sv_)
@@ -310,6 +324,7 @@ def directed_case(rng, kind, analysis=None, floating=True):
         g.add('AM', perm[:2])
     elif kind == 'K':
         g.kinds = ['K']
+        g.inductors = {}
         # two DIFFERENT inductances (a mutual inductance computed from one of them only must show)
         la, lb = rng.sample([Fraction(1), Fraction(4), Fraction(9), Fraction(1, 4), Fraction(4, 9)], 2)
         for nn_, val in (([perm[0], perm[1]], la), ([perm[2], perm[3]], lb)):
@@ -321,6 +336,7 @@ def directed_case(rng, kind, analysis=None, floating=True):
         # explicit initial current
         g.analysis = analysis = 'ivp'
         g.kinds = ['K']
+        g.inductors = {}
         which = rng.randint(0, 1)
         vals_ = rng.sample([Fraction(1), Fraction(4), Fraction(9), Fraction(1, 4), Fraction(4, 9)], 2)
         for i_, nn_ in enumerate(([perm[0], perm[1]], [perm[2], perm[3]])):
@@ -336,6 +352,26 @@ def directed_case(rng, kind, analysis=None, floating=True):
         g.inductors[g.add('L', perm[:2], rv_, extra_model=' %s' % fs(sv_))] = rv_
     elif kind == 'I':
         g.element('I', perm[:2])
+    elif kind == 'Ipar':
+        # several contributions to the same entries of Is: two current sources across the same node pair (either
+        # orientation) and, in an initial-value problem, a charged capacitor there too (before or after them)
+        if analysis == 'ivp' and rng.random() < 0.5:
+            g.add('C', perm[:2], rv_, extra_model=' %s' % fs(sv_))
+        g.element('I', perm[:2])
+        g.element('I', perm[:2] if rng.random() < 0.5 else [perm[1], perm[0]])
+        if analysis == 'ivp' and rng.random() < 0.5:
+            g.add('C', [perm[1], perm[0]], rv(rng), extra_model=' %s' % fs(sv(rng)))
+    elif kind == 'Kfirst':
+        # the K line BEFORE its inductors (the order in which the stamps accumulate into Es / D), both with initial currents
+        g.analysis = analysis = 'ivp'
+        g.kinds = ['K']
+        g.inductors = {}
+        vals_ = rng.sample([Fraction(1), Fraction(4), Fraction(9), Fraction(1, 4), Fraction(4, 9)], 2)
+        pos = len(g.lines)
+        for i_, nn_ in enumerate(([perm[0], perm[1]], [perm[2], perm[3]])):
+            g.inductors[g.add('L', nn_, vals_[i_], extra_model=' %s' % fs(sv(rng)), symbolic_ok=False)] = vals_[i_]
+        g.element('K')
+        g.lines.insert(pos, g.lines.pop())
     elif kind == 'W':
         g.element('W')
         g.element('R', [g.nodes[-1], perm[0]])
@@ -359,7 +395,7 @@ def directed_case(rng, kind, analysis=None, floating=True):
             'subs': dict(g.subs), 'omega': g.omega, 'kinds': [kind], 'directed': kind}
 
 
-DIRECTED_KINDS = ['E', 'Eac', 'Eopamp', 'EopampRo', 'G', 'F', 'H', 'TF', 'GY', 'TR', 'AM', 'K', 'Kic1', 'Kic2', 'Cic', 'Lic', 'I', 'W',
+DIRECTED_KINDS = ['E', 'Eac', 'Eopamp', 'EopampRo', 'Efdopamp', 'Einamp', 'G', 'F', 'H', 'TF', 'GY', 'TR', 'AM', 'K', 'Kic1', 'Kic2', 'Cic', 'Lic', 'I', 'Ipar', 'Kfirst', 'W',
                   'Hamm', 'HL', 'HR', 'HC', 'TPA', 'TPB', 'TPG', 'TPH', 'TPY', 'TPZ', 'SPpp', 'SPpm', 'SPppp', 'SPpmm', 'SPppm', 'TL']
 
 
